@@ -77,6 +77,35 @@ fn feed_collect<const N: usize>(sink: u8) {
     }
 }
 
+/// A source that is NOT fused: it follows a script of Some/None answers (an item may follow a None), then ends.
+pub struct Script {
+    pub plan: [Option<u8>; 5],
+    pub calls: usize,
+}
+impl Script {
+    pub fn nd() -> Script {
+        let vals: [u8; 5] = nd::any();
+        let some: [bool; 5] = nd::any();
+        let mut plan = [None; 5];
+        let mut i = 0;
+        while i < 5 {
+            if some[i] {
+                plan[i] = Some(vals[i]);
+            }
+            i += 1;
+        }
+        Script { plan, calls: 0 }
+    }
+}
+impl Iterator for Script {
+    type Item = u8;
+    fn next(&mut self) -> Option<u8> {
+        let r = if self.calls < 5 { self.plan[self.calls] } else { None };
+        self.calls += 1;
+        r
+    }
+}
+
 nd::harnesses! {
     #[kani::unwind(6)] fn c15_feed_into_closure_4() { feed_closure::<4>(0) }
     #[kani::unwind(6)] fn c15_feed_into_mut_closure_4() { feed_closure::<4>(1) }
@@ -351,6 +380,26 @@ nd::harnesses! {
             assert!(ci.next() == Some(x));
             j += 1;
         }
+    }
+
+    /// A source that is not fused: the wrapper answers every poll with exactly what the source answers to that poll
+    /// (an item after a None is not lost), and polls the source once per poll.
+    #[kani::unwind(8)]
+    fn c15_citer_not_fused_source() {
+        let mut src = Script::nd();
+        let plan = src.plan;
+        nd::cover!(plan[1].is_none() && plan[2].is_some(), "an item follows a None");
+        let polls = nd::range(0, 6);
+        {
+            let mut ci = CIterator::new(&mut src);
+            let mut j = 0;
+            while j < polls {
+                let r = ci.next();
+                assert!(r == if j < 5 { plan[j] } else { None }, "yields exactly what the wrapped iterator yields");
+                j += 1;
+            }
+        }
+        assert!(src.calls == polls, "one poll of the source per poll of the wrapper");
     }
 
     /// Negative twin: claims the callback is invoked for every item even after returning false.
